@@ -55,6 +55,13 @@ def generate(rng, seed, index, tier):
             kw["lamb_max"] = float(rng.choice([8.0, 64.0, 1e3]))
         if rng.random() < 0.5:
             kw["display_interval"] = float(rng.choice([0.0, 0.1, 1e18]))
+        if rng.random() < 0.25:
+            kw["lamb_init"] = float(rng.choice([0.3, 3.3, 0.7]))  # not dyadic
+        if rng.random() < 0.1:
+            # single precision is mostly unusable here (DESIGN 3.3) - as an *earlier solve of the process* it is
+            # still a legitimate part of a history, whatever its own outcome
+            kw["precision"] = "Single"
+            kw.pop("scaling_type", None)
         plist.append(kw)
     hist = []
     nsolv = int(rng.integers(1, 5))
@@ -147,7 +154,7 @@ def _op_world(world, op, solver_def, shift=0.0):
 
 def _isolated(w):
     ex = execute(w, params=("default" if w.get("params_default") else None))
-    return {"traj": ex.traj_digest(), "outcome": ex.outcome, "trials": len(ex.trials)}
+    return {"traj": ex.traj_digest(), "res": ex.result_digest(), "outcome": ex.outcome, "trials": len(ex.trials)}
 
 
 def case(world):
@@ -185,6 +192,7 @@ def case(world):
     viol, keys = [], []
     execs = len(twins)
     prev_dig = "start"
+    kept = []
     prev_by_solver = {}
     i = -1
     seen_params_users = {}
@@ -228,13 +236,20 @@ def case(world):
         prev_by_solver[sid] = (repr(op["x0"]), repr(op["y0"]), repr(op.get("clock")), repr(op.get("faults")), repr(op.get("obs")))
         sub = {"op": i}
         if only is None or only == sub:
+            if dig == tw["traj"] and ex.result_digest() != tw["res"]:
+                viol.append(V(ID, "history-dependence", "solve #%d: trajectory as in a fresh process, but the returned result (status / counters / x, y, d / collected path) differs" % i, sub, {"reused": sid in prev_by_solver, "prev": prev_dig[:8], "part": "result"}, sig_extra="result"))
             if dig != tw["traj"]:
                 t = "?"
                 viol.append(V(ID, "history-dependence", "solve #%d (solver %d%s) ended %s after %d trials; alone in a fresh process it ends %s after %d trials" % (i, sid, ", re-used" if stats.get("ops.reused_solver") else "", ex.outcome, len(ex.trials), tw["outcome"], tw["trials"]), sub, {"reused": sid in prev_by_solver, "prev": prev_dig[:8]}))
         if i > 0 and tw["trials"] >= 1:
             bump("nontrivial")
             keys.append("%s:%d:%s" % (tw["traj"][:12], i, prev_dig[:8]))
+        kept.append((i, ex, ex.result_digest()))
         prev_dig = dig
         prev_outcome_abort = ex.outcome in ("status:TimeLimit", "status:IterationLimit", "deliberate:Inverse step size", "deliberate:Failed to evaluate initial iterate") or ex.outcome.startswith("crash")
+    # results are values: what an earlier solve returned must not change because of later solves
+    for (j, exj, dj) in kept:
+        if (only is None or only == {"op": j}) and exj.result_digest() != dj:
+            viol.append(V(ID, "earlier-result-changed", "the result returned by solve #%d changed after later solves in the process" % j, {"op": j}, {}))
     sample = {"seed": world.get("seed"), "index": world.get("index"), "problems": [{"family": p["family"], "n": p["n"], "m": p["m"]} for p in c["problems"]], "params_list": c["params_list"], "history": [{k: v for k, v in op.items() if k != "clock"} for op in hist][:8]}
     return {"violations": viol, "stats": stats, "keys": keys, "executions": execs, "sample": sample}
